@@ -31,6 +31,8 @@ mod monitors2;
 mod monitors3;
 #[path = "../../src/props.rs"]
 mod props;
+#[path = "../../src/races.rs"]
+mod races;
 #[path = "../../src/rt.rs"]
 mod rt;
 #[path = "../../src/runner.rs"]
